@@ -161,13 +161,11 @@ Definition explicit_nonce_len (hc : half) : nat :=
    (the loop inspects min(256,len) bytes and only those with i <= pl count);
    on failure paddingLen is zeroed, so toRemove = 1. *)
 Definition extract_padding (payload : bytes) : nat * bool :=
-  match rev payload with
-  | [] => (0%nat, false)
-  | pl :: _ =>
-    let k := S (N.to_nat pl) in
-    if (k <=? length payload)%nat && forallb (N.eqb pl) (firstn k (rev payload))
-    then (k, true) else (1%nat, false)
-  end.
+  if (length payload <? 1)%nat then (0%nat, false) else
+  let pl := last payload 0 in                                            (* payload[len(payload)-1] *)
+  let k := S (N.to_nat pl) in
+  if (k <=? length payload)%nat && forallb (N.eqb pl) (firstn k (rev payload))
+  then (k, true) else (1%nat, false).
 
 (* conn.go:330 *)
 Definition round_up (a b : nat) : nat := (a + (b - a mod b) mod b)%nat.
@@ -210,59 +208,64 @@ Definition xor_key_stream (c : cipher) (data : bytes) : bytes * cipher :=
 
 (* ---- conn.go:483-560 encrypt. [hdr] is the 5-byte header already in `record`;
    [rnd] is what io.ReadFull(rand, explicitNonce) would deliver. ---- *)
+Definition is_cbc (c : cipher) : bool := match c_kind c with KCbc => true | _ => false end.
+
+(* conn.go:489-507: the explicit nonce / IV *)
+Definition enc_explicit (hc : half) (c : cipher) (rnd : bytes) : res bytes :=
+  let enl := explicit_nonce_len hc in
+  if (0 <? enl)%nat then
+    if negb (is_cbc c) && (enl <? 16)%nat
+    then Ok (firstn enl (seq8 (h_seq hc) ++ zeros (enl - 8)))            (* copy(explicitNonce, hc.seq[:]) *)
+    else if (length rnd <? enl)%nat then Err e_rand else Ok (firstn enl rnd)
+  else Ok [].
+
+(* conn.go:509-553: the switch over the cipher type; [record] = header ++ explicit nonce *)
+Definition enc_cipher (hc : half) (c : cipher) (record explicit payload : bytes) : res (bytes * cipher) :=
+  match c_kind c with
+  | KStream =>
+    match h_mac hc with
+    | None => Panic p_nil
+    | Some m =>
+      let mac := tls10mac m (h_seq hc) (firstn recordHeaderLen record) payload in
+      let (d1, c1) := xor_key_stream c payload in
+      let (d2, c2) := xor_key_stream c1 mac in
+      Ok (record ++ d1 ++ d2, c2)
+    end
+  | KAeadPrefix | KAeadXor =>
+    let nonce := match explicit with [] => seq8 (h_seq hc) | _ => explicit end in
+    if h_vers hc =? V13 then
+      let n := len payload + 1 + N.of_nat aead_overhead in
+      let hdr13 := [rtAppData] ++ firstn 2 (skipn 1 record) ++ be16 n in       (* record[0] = 23; record[3:5] = n *)
+      let inner := skipn recordHeaderLen record ++ payload ++ firstn 1 record in
+      Ok (hdr13 ++ aead_seal P (c_alg c) (c_key c) (aead_nonce c nonce) hdr13 inner, c)
+    else
+      let ad := seq8 (h_seq hc) ++ firstn recordHeaderLen record in
+      Ok (record ++ aead_seal P (c_alg c) (c_key c) (aead_nonce c nonce) ad payload, c)
+  | KCbc =>
+    match h_mac hc with
+    | None => Panic p_nil
+    | Some m =>
+      let mac := tls10mac m (h_seq hc) (firstn recordHeaderLen record) payload in
+      let bs := c_bs c in
+      if (bs =? 0)%nat then Panic p_cipher else
+      let plaintextLen := (length payload + length mac)%nat in
+      let paddingLen := (bs - plaintextLen mod bs)%nat in
+      let dst := payload ++ mac ++ repeat ((N.of_nat paddingLen - 1) mod 256) paddingLen in
+      let c1 := match explicit with [] => c | _ => set_iv c explicit end in
+      do r <- crypt_blocks c1 dst;
+      Ok (record ++ fst r, snd r)
+    end
+  end.
+
 Definition encrypt (hc : half) (hdr payload rnd : bytes) : res (bytes * half) :=
   match h_cipher hc with
   | None => Ok (hdr ++ payload, hc)                                       (* conn.go:484: returns before incSeq *)
   | Some c =>
-    let enl := explicit_nonce_len hc in
-    let is_cbc := match c_kind c with KCbc => true | _ => false end in
-    do explicit <-
-      (if (0 <? enl)%nat then
-         if negb is_cbc && (enl <? 16)%nat
-         then Ok (firstn enl (seq8 (h_seq hc) ++ zeros (enl - 8)))        (* copy(explicitNonce, hc.seq[:]) *)
-         else if (length rnd <? enl)%nat then Err e_rand else Ok (firstn enl rnd)
-       else Ok []);
-    let record := hdr ++ explicit in
-    do rc <-
-      (match c_kind c with
-       | KStream =>
-         match h_mac hc with
-         | None => Panic p_nil
-         | Some m =>
-           let mac := tls10mac m (h_seq hc) (firstn recordHeaderLen record) payload in
-           let (d1, c1) := xor_key_stream c payload in
-           let (d2, c2) := xor_key_stream c1 mac in
-           Ok (record ++ d1 ++ d2, c2)
-         end
-       | KAeadPrefix | KAeadXor =>
-         let nonce := match explicit with [] => seq8 (h_seq hc) | _ => explicit end in
-         if h_vers hc =? V13 then
-           let n := len payload + 1 + N.of_nat aead_overhead in
-           let hdr13 := [rtAppData] ++ firstn 2 (skipn 1 record) ++ be16 n in   (* record[0] = 23; record[3:5] = n *)
-           let inner := skipn recordHeaderLen record ++ payload ++ firstn 1 record in
-           Ok (hdr13 ++ aead_seal P (c_alg c) (c_key c) (aead_nonce c nonce) hdr13 inner, c)
-         else
-           let ad := seq8 (h_seq hc) ++ firstn recordHeaderLen record in
-           Ok (record ++ aead_seal P (c_alg c) (c_key c) (aead_nonce c nonce) ad payload, c)
-       | KCbc =>
-         match h_mac hc with
-         | None => Panic p_nil
-         | Some m =>
-           let mac := tls10mac m (h_seq hc) (firstn recordHeaderLen record) payload in
-           let bs := c_bs c in
-           if (bs =? 0)%nat then Panic p_cipher else
-           let plaintextLen := (length payload + length mac)%nat in
-           let paddingLen := (bs - plaintextLen mod bs)%nat in
-           let dst := payload ++ mac ++ repeat ((N.of_nat paddingLen - 1) mod 256) paddingLen in
-           let c1 := match explicit with [] => c | _ => set_iv c explicit end in
-           do r <- crypt_blocks c1 dst;
-           Ok (record ++ fst r, snd r)
-         end
-       end);
-    let rec2 := fst rc in
-    let n := len rec2 - N.of_nat recordHeaderLen in
+    do explicit <- enc_explicit hc c rnd;
+    do rc <- enc_cipher hc c (hdr ++ explicit) explicit payload;
+    let n := len (fst rc) - N.of_nat recordHeaderLen in                   (* conn.go:555-559 *)
     do hc' <- inc_seq (set_cipher hc (Some (snd rc)));
-    Ok (set_len rec2 n, hc')
+    Ok (set_len (fst rc) n, hc')
   end.
 
 (* TLS 1.3 inner plaintext: scan from the end for the first non-zero byte (conn.go:424-434).
@@ -274,76 +277,87 @@ Fixpoint strip13 (rp : bytes) : option (N * bytes) :=
   end.
 
 (* ---- conn.go:343-475 decrypt ---- *)
+(* conn.go:362-414: the switch over the cipher type. Result: plaintext (AEAD), payload after in-place
+   decryption, paddingLen, paddingGood, cipher state *)
+Definition dec_cipher (hc : half) (c : cipher) (record : bytes) : res (bytes * bytes * nat * bool * cipher) :=
+  let hdr := firstn recordHeaderLen record in
+  let payload := skipn recordHeaderLen record in
+  let enl := explicit_nonce_len hc in
+  match c_kind c with
+  | KStream =>
+    let (d, c1) := xor_key_stream c payload in Ok ([], d, 0%nat, true, c1)
+  | KAeadPrefix | KAeadXor =>
+    if (length payload <? enl)%nat then Err a_bad_record_mac else
+    let nonce := match firstn enl payload with [] => seq8 (h_seq hc) | e => e end in
+    let body := skipn enl payload in
+    let ad :=
+      if h_vers hc =? V13 then hdr
+      else seq8 (h_seq hc) ++ firstn 3 record
+           ++ be16 (N.of_nat (length body - aead_overhead)) in             (* n := len(payload) - c.Overhead() *)
+    match aead_open P (c_alg c) (c_key c) (aead_nonce c nonce) ad body with
+    | None => Err a_bad_record_mac
+    | Some pt => Ok (pt, body, 0%nat, true, c)
+    end
+  | KCbc =>
+    match h_mac hc with
+    | None => Panic p_nil
+    | Some m =>
+      let bs := c_bs c in
+      if (bs =? 0)%nat then Panic p_cipher else
+      let minPayload := (enl + round_up (m_size m + 1) bs)%nat in
+      if negb (length payload mod bs =? 0)%nat || (length payload <? minPayload)%nat
+      then Err a_bad_record_mac else
+      let c1 := if (0 <? enl)%nat then set_iv c (firstn enl payload) else c in
+      let body := if (0 <? enl)%nat then skipn enl payload else payload in
+      do r <- crypt_blocks c1 body;
+      let (pl, good) := extract_padding (fst r) in
+      Ok ([], fst r, pl, good, snd r)
+    end
+  end.
+
+(* conn.go:416-435: TLS 1.3 inner content type *)
+Definition dec_inner13 (hc : half) (typ : N) (pt : bytes) : res (bytes * N) :=
+  if h_vers hc =? V13 then
+    if negb (typ =? rtAppData) then Err a_unexpected_message else
+    if maxPlaintext + 1 <? len pt then Err a_record_overflow else
+    match strip13 (rev pt) with
+    | None => Err a_unexpected_message
+    | Some (t, p) => Ok (p, t)
+    end
+  else Ok (pt, typ).
+
+(* conn.go:440-468: MAC-then-encrypt verification *)
+Definition dec_mac (hc : half) (record pt pay : bytes) (pl : nat) (good : bool) : res bytes :=
+  match h_mac hc with
+  | None => Ok pt
+  | Some m =>
+    let macSize := m_size m in
+    if (length pay <? macSize)%nat then Err a_bad_record_mac else
+    let n := (length pay - macSize - pl)%nat in                          (* negative -> 0: nat subtraction *)
+    let hdr2 := firstn 3 record ++ be16 (N.of_nat n) in
+    let remoteMAC := slice pay n (n + macSize) in
+    let localMAC := tls10mac m (h_seq hc) hdr2 (firstn n pay) in
+    if bytes_eqb localMAC remoteMAC && good then Ok (firstn n pay) else Err a_bad_record_mac
+  end.
+
 Definition decrypt (hc : half) (record : bytes) : res (bytes * N * half) :=
   if (length record <? recordHeaderLen)%nat then Panic p_range else
   let typ := nth 0 record 0 in
-  let hdr := firstn recordHeaderLen record in
   let payload := skipn recordHeaderLen record in
   if (h_vers hc =? V13) && (typ =? rtCCS) then Ok (payload, typ, hc) else
-  let enl := explicit_nonce_len hc in
-  (* stage 1: plaintext, payload (after in-place decryption), paddingLen, paddingGood, typ, cipher state *)
-  do st <-
-    (match h_cipher hc with
-     | None => Ok (payload, payload, 0%nat, true, typ, None)
-     | Some c =>
-       do r <-
-         (match c_kind c with
-          | KStream =>
-            let (d, c1) := xor_key_stream c payload in Ok ([], d, 0%nat, true, c1)
-          | KAeadPrefix | KAeadXor =>
-            if (length payload <? enl)%nat then Err a_bad_record_mac else
-            let nonce := match firstn enl payload with [] => seq8 (h_seq hc) | e => e end in
-            let body := skipn enl payload in
-            let ad :=
-              if h_vers hc =? V13 then hdr
-              else seq8 (h_seq hc) ++ firstn 3 record
-                   ++ be16 (N.of_nat (length body - aead_overhead)) in   (* n := len(payload) - c.Overhead() *)
-            match aead_open P (c_alg c) (c_key c) (aead_nonce c nonce) ad body with
-            | None => Err a_bad_record_mac
-            | Some pt => Ok (pt, body, 0%nat, true, c)
-            end
-          | KCbc =>
-            match h_mac hc with
-            | None => Panic p_nil
-            | Some m =>
-              let bs := c_bs c in
-              if (bs =? 0)%nat then Panic p_cipher else
-              let minPayload := (enl + round_up (m_size m + 1) bs)%nat in
-              if negb (length payload mod bs =? 0)%nat || (length payload <? minPayload)%nat
-              then Err a_bad_record_mac else
-              let c1 := if (0 <? enl)%nat then set_iv c (firstn enl payload) else c in
-              let body := if (0 <? enl)%nat then skipn enl payload else payload in
-              do r <- crypt_blocks c1 body;
-              let (pl, good) := extract_padding (fst r) in
-              Ok ([], fst r, pl, good, snd r)
-            end
-          end);
-       let '(pt, pay, pl, good, c1) := r in
-       if h_vers hc =? V13 then
-         if negb (typ =? rtAppData) then Err a_unexpected_message else
-         if maxPlaintext + 1 <? len pt then Err a_record_overflow else
-         match strip13 (rev pt) with
-         | None => Err a_unexpected_message
-         | Some (t, p) => Ok (p, pay, pl, good, t, Some c1)
-         end
-       else Ok (pt, pay, pl, good, typ, Some c1)
-     end);
-  let '(pt, pay, pl, good, typ1, c1) := st in
-  (* stage 2: MAC *)
-  do pt2 <-
-    (match h_mac hc with
-     | None => Ok pt
-     | Some m =>
-       let macSize := m_size m in
-       if (length pay <? macSize)%nat then Err a_bad_record_mac else
-       let n := (length pay - macSize - pl)%nat in                        (* negative -> 0: nat subtraction *)
-       let hdr2 := firstn 3 record ++ be16 (N.of_nat n) in
-       let remoteMAC := slice pay n (n + macSize) in
-       let localMAC := tls10mac m (h_seq hc) hdr2 (firstn n pay) in
-       if bytes_eqb localMAC remoteMAC && good then Ok (firstn n pay) else Err a_bad_record_mac
-     end);
-  do hc' <- inc_seq (set_cipher hc c1);
-  Ok (pt2, typ1, hc').
+  match h_cipher hc with
+  | None =>
+    do pt2 <- dec_mac hc record payload payload 0 true;
+    do hc' <- inc_seq hc;
+    Ok (pt2, typ, hc')
+  | Some c =>
+    do r <- dec_cipher hc c record;
+    let '(pt, pay, pl, good, c1) := r in
+    do pt1 <- dec_inner13 hc typ pt;
+    do pt2 <- dec_mac hc record (fst pt1) pay pl good;
+    do hc' <- inc_seq (set_cipher hc (Some c1));
+    Ok (pt2, snd pt1, hc')
+  end.
 
 (* ---- the connection ---- *)
 Record conn := mkConn {
